@@ -147,12 +147,38 @@ def boxedOp (name : String) (n m a b : Nat) : Option String :=
     both (if r.2 = WMAX then limbsHexLen r.1 else "panic") (if p < K then lenHex n p else "panic")
   | _ => none
 
+/-- `c03.hook.*`: the crate-internal limb-slice routines reached through `crypto_bigint::verif_hooks`.
+    `adc_mul_limbs n m x y acc`: `(out, carry)` with `out + B^(n+m)·carry = acc + x·y`;
+    `kara_mul n m x y dirty` / `kara_square n x dirty`: the product on `n + m` / `2n` limbs (the routines overwrite all of
+    `out`, so pre-filled buffers — `dirty = 1` — give the same answer; scratch is not modelled). Fuel = total limb count,
+    as in `boxedMul` / `boxedSquare`. -/
+def hookOp (name : String) (args : List String) : Option String :=
+  match name, args with
+  | "adc_mul_limbs", [n, m, x, y, acc] =>
+    match parse2 n m x y, hexToNat? acc with
+    | some (n, m, x, y), some acc =>
+      let r := adcMulLimbs (toLimbs n x) (toLimbs m y) (toLimbs (n + m) acc)
+      let t := acc + x * y
+      let K := B ^ (n + m)
+      both s!"{limbsHexLen r.1} {natToHex r.2}" s!"{lenHex (n + m) (t % K)} {natToHex (t / K)}"
+    | _, _ => badArgs
+  | "kara_mul", [n, m, x, y, _dirty] =>
+    match parse2 n m x y with
+    | some (n, m, x, y) => both (limbsHexLen (karaMulLimbs (n + m) (toLimbs n x) (toLimbs m y))) (lenHex (n + m) (x * y))
+    | none => badArgs
+  | "kara_square", [n, x, _dirty] =>
+    match parse1 n x with
+    | some (n, x) => both (limbsHexLen (karaSquareLimbs n (toLimbs n x))) (lenHex (2 * n) (x * x))
+    | none => badArgs
+  | _, _ => none
+
 end D03
 
 open D03 CB.Mul CB.Karatsuba in
 /-- operations of property C03 (op names start with `c03.`) -/
 def dispatchC03 : Dispatch := fun op args =>
   match op.splitOn ".", args with
+  | ["c03", "hook", name], args => hookOp name args
   | ["c03", "l", "mac"], [a, b, c, d] =>
     match hexToNat? a, hexToNat? b, hexToNat? c, hexToNat? d with
     | some a, some b, some c, some d =>
